@@ -9,7 +9,7 @@ from vf.runner import Acc, filler
 PROPERTY = "C11"
 CONCUR_FILES = ('bits/bips/bip143.py', 'bits/tx.py', 'bits/utils.py')
 # (thread a, thread b), warm-up: indices into seq_ops() - the ordinary single-case checks run concurrently (vf/concur.py)
-CONCUR_SCEN = [((0, 1), ()), ((7, 8), (9,)), ((8, 8), (7,)), ((3, 5), (11,))]
+CONCUR_SCEN = [((0, 1), ()), ((7, 8), (9,)), ((8, 8), (7,)), ((3, 5), (11,)), ((7, 8, 9), ())]   # the last one: three threads
 LEVEL = "exploration"
 RULE = ("FULL product over (n_in 1..4 [thorough 1..8], n_out 1..4 [1..8], EVERY input index, all six sighash flags) - so SINGLE "
         "with index <, = and > number of outputs occurs - crossed with ALL assignments within deviation <= 2 over: scriptSig "
@@ -147,7 +147,7 @@ def run_job(job):
         return run_concur_job(job, scens, run_case, PROPERTY, CONCUR_FILES)
     if job["part"] == "seq":
         from vf.runner import run_seq_job
-        return run_seq_job(job, seq_ops(job), run_case)
+        return run_seq_job(job, seq_ops(job), run_case, depth=3 if job["tier"] == "quick" else 4)
     acc = Acc(job)
     seed, tier = job["seed"], job["tier"]
     if job["part"] == "long":
